@@ -60,6 +60,19 @@ CHECKS = {
              "equation format(fm+body) = fm + format(body) is undefined for them).",
         technique="TLA+ model checking (TLC) of Frontmatter.tla + exhaustive replay + trace validation (FmTrace.tla)",
         design="§6 C07, §12"),
+    "C08": dict(
+        level="model_checking",
+        text="spec/Typography.tla transcribes smart_quotes as a machine over an 11-symbol alphabet (tag segmentation, leftmost "
+             "non-overlapping QUOTE_PATTERN matches with the consumed suffix, paragraph-break veto, per-word apostrophe rule); TLC checks "
+             "QuoteProp (same length, only ' and \" change, only to a curly quote of their family, converted pairs never span a paragraph "
+             "break) and TagsUntouched for every string up to the bound. Every string is concretised and run through the real "
+             "smart_quotes; spec/TypoTrace.tla validates each real pair against the machine (drift) and the property. Document level: "
+             "(smartquotes off, on) pairs of reformat_text outputs for 35 quote-bearing / construct-rich documents under the other option "
+             "settings: same length, same line breaks, every differing position is a straight quote turned curly outside protected spans.",
+        note="Trusted: the protected-span scanner of harness/typo.py on generated documents; symbol classes represented by rotating concrete "
+             "characters. The regex engine is bound by exhaustive replay, not modelled.",
+        technique="TLA+ model checking (TLC) of the Quotes machine + exhaustive string replay + on/off differential trace validation (TypoTrace.tla)",
+        design="§6 C08, §12"),
     "C11": dict(
         level="model_checking",
         text="TLC explores every behaviour of spec/SentenceWrap.tla (one action per sentence of line_wrap_by_sentence, inner greedy "
